@@ -14,6 +14,7 @@
 #include <errno.h>
 #include <math.h>
 #include <stdio.h>
+#include <stdlib.h>
 #include <string.h>
 #include <vnacal.h>
 #include "vf.h"
@@ -390,22 +391,26 @@ static void run_ens(int tier, int t, vf_result *r)
     int worst_group_pct = 0;
     char sig[160];
 
-    vf_desc(r, "ensemble %s: %d fixed Gaussian realisations x 36 scenarios, "
+    vf_desc(r, "ensemble %s: %d fixed Gaussian realisations x up to 72 scenarios, "
 	    "significance 0.05", tname, nreal);
     unsigned long mark = vf_exec_begin();
-    for (int dn = 0; dn < 4; ++dn) {
-	int d = dn & 1;
+    for (int dn = 0; dn < 6; ++dn) {
+	int d = dn % 3;		/* 1x1, 2x2, and 1x2 (T) / 2x1 (U) */
 	int rows = dimlist[d][0], cols = dimlist[d][1];
+	if (!is_t(types[t])) { int x = rows; rows = cols; cols = x; }
 	/* second half: an almost ideal instrument, where a match reads
 	   nearly zero and the weights spread over orders of magnitude */
-	g_net = dn < 2 ? 2 : 3;
+	g_net = dn < 3 ? 2 : 3;
 	for (int recipe = 0; recipe < 2; ++recipe) {
 	    if (make_scenario(&sc, types[t], rows, cols, recipe, 1) != 0)
 		continue;
 	    long double margin; int eqs, unk;
 	    if (!cs_identifiable(&sc, (1u << sc.nstd) - 1u, &margin, &eqs,
-			&unk) || margin < 1e-4L || eqs <= unk)
-		continue;
+			&unk) || margin < 1e-2L || eqs <= unk)
+		continue;	/* not well-conditioned, or not redundant */
+	    vf_note("  scenario dims %dx%d recipe %d net %d: margin %.3Le, %d "
+		    "equations, %d unknowns", rows, cols, recipe, g_net, margin,
+		    eqs, unk);
 	    for (int cfg = 0; cfg < 6; ++cfg) {
 		/* noise-floor dominated, mixed, tracking dominated, mixed2,
 		   strongly tracking dominated (weights spread over orders of
@@ -427,6 +432,8 @@ static void run_ens(int tier, int t, vf_result *r)
 		    if (o.rc == -1 && o.err_no == EDOM) {
 			++rejected;
 			++g_rejected;
+			if (vf_verbose)
+			    vf_note("    real %d: %s", k, o.msg);
 		    } else if (o.rc != 0)
 			++other;
 		}
@@ -434,7 +441,23 @@ static void run_ens(int tier, int t, vf_result *r)
 		vf_note("  group dims %dx%d recipe %d net %d nf %g tr %g: "
 			"rejected %ld of %ld", rows, cols, recipe, g_net,
 			nfv[cfg], trv[cfg], g_rejected, g_trials);
-		if (g_trials >= 64 && 5 * g_rejected > 2 * g_trials) {
+		/*
+		 * per-scenario ceiling: only where first-order error
+		 * propagation, on which any such test rests, is accurate:
+		 * the noise is small against the conditioning margin of
+		 * the scenario (30 x), or there is ample redundancy (4 or
+		 * more equations beyond the unknowns) to average second-
+		 * order terms out.  With 5..10 %% noise, a margin of 0.06
+		 * and a single redundant equation (T16 1x2, U16 2x1 with
+		 * T, MM, SO, OS, SM, OM: 12 equations, 11 unknowns) about
+		 * half of the realisations are rejected or do not converge;
+		 * the property speaks of the rate per type over many
+		 * scenarios, which is judged below.
+		 */
+		if (g_trials >= 64 &&
+			(30.0L * (nfv[cfg] + trv[cfg]) <= margin ||
+			 eqs - unk >= 4) &&
+			5 * g_rejected > 2 * g_trials) {
 		    snprintf(sig, sizeof(sig), "rejection-rate-group:%s",
 			    tname);
 		    vf_fail(r, sig, "%dx%d recipe %d (network %d, sigma_nf "
